@@ -317,6 +317,19 @@ def C08_5(ctx, facts):
                   "the live stream can be read while prefix bytes remain", c.where(), f.path_desc(w))
         fwd_ok = all(any(r.kind == "arg" and getattr(r, "index", None) == i + 1 for r in f.roots(c.args[i])) for i in (1, 2))
         ctx.check(fwd_ok, "Rewind::poll_read|inner-args", "cx and buf are passed on unchanged", "inner read arguments are not the method's own cx / buf", c.where())
+    # once replayed bytes sit in the caller's cursor the call must report them: a further read of the live stream in the
+    # same call could answer Pending (or an error), and callers discard the cursor contents on anything but Ready(Ok)
+    for c in puts:
+        pth = None
+        for i2 in inner:
+            pth = pth or f.path(c.bb, [i2.bb])
+        ctx.check(pth is None, "Rewind::poll_read|no-live-read-after-replay", "after copying prefix bytes the call returns without touching the live stream",
+                  "after copying prefix bytes the live stream is read in the same call: if it answers Pending the replayed bytes are lost", c.where(), f.path_desc(pth))
+        after = f.reach([c.bb])
+        rets = [(k, b, x) for (k, b, x) in assigns_to_return(f, after)]
+        ok = bool(rets) and all(k == "stmt" and x["r"]["k"] == "agg" and x["r"].get("v") == "Ready" for (k, b, x) in rets)
+        ctx.check(ok, "Rewind::poll_read|replay-reports-ready", "a call that replayed prefix bytes returns Ready(..) built on the spot",
+                  "a call that replayed prefix bytes can return something other than a literal Ready(..)", c.where())
     # Ready(Ok) after copying; Rewind::new stores inner and Some(prefix)
     new = facts.fn("rewind::Rewind::new")
     for (b, i, s) in new.aggregates("rewind::Rewind"):
